@@ -382,6 +382,20 @@ fn gen_topk(rng: &mut Rng, tier: Tier, cases: &mut Vec<Case>) {
             cases.push(topk_case("topk-perm", k, &xs));
         }
     }
+    // k far beyond the input (2k must neither be reserved nor overflow): fixed in b35eb01
+    let huge: [usize; 8] = [1 << 31, 100_000_000_000, 1 << 60, (1 << 63) - 1, 1 << 63, (1 << 63) + 1, usize::MAX - 1, usize::MAX];
+    let nhuge = match tier {
+        Tier::Quick => 5,
+        Tier::Thorough => 60,
+    };
+    for k in huge {
+        cases.push(topk_case("topk-huge-k", k, &[]));
+        for _ in 0..nhuge {
+            let n = 1 + rng.below(40) as usize;
+            let xs: Vec<i64> = (0..n).map(|_| rng.range(-20, 20)).collect();
+            cases.push(topk_case("topk-huge-k", k, &xs));
+        }
+    }
     let nrand = match tier {
         Tier::Quick => 300,
         Tier::Thorough => 8000,
